@@ -191,7 +191,11 @@ def do_replay(pid, path, cap=300.0):
     assert_oqupy_source()
     with open(path) as f:
         rep = json.load(f)
-    r = replay_once(pid, rep["case"], rep["decisions"], cap)
+    if rep["case"].get("static"):
+        r = runner.fork_call(lambda a: prop.static_checks("quick", 0), None,
+                             cap)
+    else:
+        r = replay_once(pid, rep["case"], rep["decisions"], cap)
     if "harness_error" in r:
         print("HARNESS-ERROR: " + r["harness_error"])
         return 2
